@@ -142,6 +142,8 @@ func tickAction() *action { return &action{kind: aTick, desc: "tick"} }
 func (w *world) buildPlan(ck ctxKey, prev *plan) *plan {
 	c, cfg := w.c, w.cfg
 	p := &plan{ck: ck, cert: isCertRound(ck.round), activeKind: ucon.Prevote, byzLeft: 14}
+	afterFault := w.afterFault
+	w.afterFault = false
 	set := w.chain.lookBackFor(ck.round, ucon.Prevote).set
 	for _, k := range w.peers {
 		if set.eligible(k) {
@@ -162,7 +164,7 @@ func (w *world) buildPlan(ck ctxKey, prev *plan) *plan {
 			if len(p.props) >= want {
 				break
 			}
-			if pr := w.fg.propose(k, ck.round, ck.index, byte(len(p.props)), w.now()); pr != nil {
+			if pr := w.fg.propose(k, ck.round, ck.index, byte(4*w.ctxSeen+len(p.props)), w.now()); pr != nil {
 				p.props = append(p.props, pr)
 				w.props[pr.block.Hash()] = pr
 			}
@@ -174,7 +176,7 @@ func (w *world) buildPlan(ck ctxKey, prev *plan) *plan {
 		}
 		// Message loss: the winning proposal never reaches this node (it only knows the
 		// competitor), while the rest of the network votes for the winner.
-		lost := len(p.props) == 2 && c.Chance("winning-proposal-lost", 1, 4)
+		lost := len(p.props) == 2 && c.Chance("winning-proposal-lost", 1, 4) && !afterFault
 		if lost {
 			w.r.Fault("net.proposal-lost")
 			w.r.Logf("plan %s: the proposal frames of %s are lost on the way to this node", ck, hname(p.target.block.Hash()))
@@ -206,7 +208,7 @@ func (w *world) buildPlan(ck ctxKey, prev *plan) *plan {
 	// --- votes
 	th, tp := p.targetHash(), p.targetPrio()
 	modes := []int{3, 3, 3, 1}
-	reached := true // does the previous kind's plan reach its quorum (then the validator under test joins in)
+	reached := true       // does the previous kind's plan reach its quorum (then the validator under test joins in)
 	ownPrevotes := !carry // at step 2 the validator prevotes the best proposal of THIS index
 	kinds := []ucon.VoteType{ucon.Prevote, ucon.Precommit}
 	if p.cert {
@@ -214,6 +216,9 @@ func (w *world) buildPlan(ck ctxKey, prev *plan) *plan {
 	}
 	for ki, kind := range kinds {
 		mode := subsetMode(c.Weighted("subset-"+kindName(kind), modes))
+		if afterFault {
+			mode = modeAll // after a restart/resume the network votes the (different) block to a quorum
+		}
 		var cands []*credential
 		eligSet := w.chain.lookBackFor(ck.round, kind).set
 		for _, k := range w.peers {
@@ -268,7 +273,7 @@ func (w *world) nextAction(overtake bool) *action {
 		}
 	}
 	if w.plan == nil || w.plan.ck != ek {
-		if w.ctxSeen >= cfg.nCtx {
+		if w.ctxSeen >= cfg.nCtx+w.nRestarts {
 			return nil
 		}
 		w.ctxSeen++
@@ -330,7 +335,7 @@ func (w *world) closingAction(p *plan) *action {
 				pr = p.target
 			}
 			if pr != nil && w.chain.head+1 == pr.round {
-				return &action{kind: aNetBlock, prop: pr, desc: "network block"}
+				return &action{kind: aNetBlock, prop: pr, index: p.ck.index, desc: "network block"}
 			}
 		}
 	}
